@@ -7,7 +7,7 @@
    parameter classification [cls] is the same on both sides, as parameter
    VALUES are in the code.) *)
 From VF Require Import Base.Prelude Gen.Enums Gen.Configs Gen.Scopes Model.Recipe Model.Check
-     Model.Graph Model.Plan Model.Insts Model.Perform Spec.WF
+     Model.Graph Model.Plan Model.Insts Model.Perform Model.Pipeline Spec.WF
      Proofs.ListFacts Proofs.LocalProofs Proofs.AloneProofs Proofs.InstsAlone Proofs.PlanLocal.
 
 Definition nb_of (g : subgraph) (n : name_t) : bool :=
@@ -72,4 +72,58 @@ Proof.
   destruct (generate_and_transform_alone m k g _ _ _ Hnd Hg Hc Hi Ht) as (tis2 & m2 & I2 & T2 & S).
   exists s', tis2, m2. split; [exact P|]. split; [|split; assumption].
   rewrite <- filter_named_map. exact I2.
+Qed.
+
+(* ---- the uniqueness contract is checked by the pipeline itself ---- *)
+Lemma names_nodupb_sound : forall l, names_nodupb l = true -> NoDup l.
+Proof.
+  induction l as [|x l IH]; cbn [names_nodupb]; intros H; [constructor|].
+  apply andb_true_iff in H. destruct H as [H1 H2]. constructor; [|apply IH; exact H2].
+  intros Hin. apply negb_true_iff in H1.
+  assert (existsb (name_eqb2 x) l = true) by (apply existsb_exists; exists x; split; [exact Hin|apply name_eqb2_refl]).
+  congruence.
+Qed.
+
+Lemma keys_inner sgid g (ts : list tensor) : forall j0,
+  map fst (map (fun it : Z * tensor => let '(tid, t) := it in (name_key t, tensor_info sgid g tid))
+               (enumerate_from j0 ts)) = map Plan.tname ts.
+Proof.
+  induction ts as [|t ts IH]; intros j0; cbn [enumerate_from map]; [reflexivity|].
+  rewrite IH. reflexivity.
+Qed.
+
+Lemma keys_outer (l : list subgraph) : forall i0,
+  map fst (flat_map (fun sg : Z * subgraph => let '(sgid, g) := sg in
+             map (fun it : Z * tensor => let '(tid, t) := it in (name_key t, tensor_info sgid g tid))
+                 (enumerate (sg_tensors g))) (enumerate_from i0 l))
+  = flat_map (fun g => map Plan.tname (sg_tensors g)) l.
+Proof.
+  induction l as [|g l IH]; intros i0; cbn [enumerate_from flat_map]; [reflexivity|].
+  rewrite map_app, IH. unfold enumerate. rewrite keys_inner. reflexivity.
+Qed.
+
+Lemma all_keys_all_names m : all_keys m = all_names m.
+Proof. unfold all_keys, info_map, all_names. apply keys_outer. Qed.
+
+(* the whole modelled pipeline: whenever it returns, subgraph k of the result is
+   what plan / instruction generation / transformation produce on k alone *)
+Theorem pipeline_subgraph_alone mk_cls matches rules scope_id m scopes stats m1 rs k g sc :
+  pipeline_cls mk_cls matches rules scope_id m scopes stats = Ok (m1, rs) ->
+  nth_opt (combine (m_subgraphs m) scopes) k = Some (g, sc) -> codes_in_range (m_opcodes m) g ->
+  exists s' tis2 m2,
+    plan matches rules (m_buffers (alone m k g)) (fun _ => scope_id (Z.of_nat k)) (alone m k g) [sc] stats
+      = Ok (filt (nb_of g) rs, s') /\
+    insts_of_params (alone m k g) (map (to_ttp (mk_cls (terms_of rs))) (filt (nb_of g) rs)) = Ok tis2 /\
+    transform_graph (alone m k g) tis2 = Ok m2 /\
+    same_subgraph_result k 0 m1 m2.
+Proof.
+  intros H Hk Hc. unfold pipeline_cls, plan_checked_cls in H.
+  destruct (names_nodupb (all_names m)) eqn:En; cbn [negb] in H; [|discriminate].
+  destruct (plan matches rules (m_buffers m) scope_id m scopes stats) as [[rs0 s0]|] eqn:Ep; cbn [bind fst] in H; [|discriminate].
+  destruct (check_buffer_sharing_with _ _ _ _); cbn [bind fst] in H; [|discriminate].
+  destruct (insts_of_params m _) as [tis|] eqn:Ei; cbn [bind] in H; [|discriminate].
+  destruct (transform_graph m tis) as [m1'|] eqn:Et; cbn [bind] in H; [|discriminate].
+  inversion H; subst m1' rs0. clear H.
+  assert (Hnd : NoDup (all_keys m)) by (rewrite all_keys_all_names; apply names_nodupb_sound; exact En).
+  eapply stages_alone; eauto.
 Qed.
